@@ -1,14 +1,16 @@
 #!/bin/sh
 # Build the framework from files on disk only (offline). Run once after a fresh restore.
 set -e
-cd /verif/harness
+HERE="$(cd "$(dirname "$0")" && pwd)"
+cd "$HERE/harness"
 export CARGO_NET_OFFLINE=true
 cargo build --offline --release -p vcore
 cargo build --offline --release -p vserde
 cargo build --offline --release -p vnet --features plain --bin vnet_plain
 cargo build --offline --release -p vnet --features native --bin vnet_native
 cargo build --offline --release -p vnet --features rtls --bin vnet_rtls
-cd /verif/harness
-(cd /repo && cargo build --offline --release -p ipp-util --target-dir /verif/harness/target/util)
+# the real ipputil binary, from /repo's working tree (C18)
+(cd "${VERIF_REPO:-/repo}" && cargo build --offline --release -p ipp-util --target-dir "$HERE/harness/target/util")
 # warm the Miri build of the core monitors (used by the C02 quick check and the thorough tiers)
+cd "$HERE/harness"
 MIRIFLAGS="-Zmiri-disable-isolation -Zmiri-ignore-leaks" cargo +nightly miri run --offline -p vcore -- san --focus c19 --budget 1 >/dev/null
